@@ -176,6 +176,75 @@ def threaded_sample(ctx, n):
                 ctx.failure("threaded-spurious-exception:" + where, "blocking emit(%d) raised %s" % (x, raised), case)
 
 
+DF_BUILDERS = {
+    "sum": lambda sdf: sdf.x.sum(),
+    "mean": lambda sdf: sdf.x.mean(),
+    "groupby-sum": lambda sdf: sdf.groupby("g").x.sum(),
+    "groupby-mean": lambda sdf: sdf.groupby("g").x.mean(),
+    "window-sum": lambda sdf: sdf.window(n=3).x.sum(),
+    "window-mean": lambda sdf: sdf.window(n=3).x.mean(),
+    "window-groupby-sum": lambda sdf: sdf.window(n=3).groupby("g").x.sum(),
+    "window-groupby-mean": lambda sdf: sdf.window(n=4).groupby("g").x.mean(),
+    "rolling-sum": lambda sdf: sdf.x.rolling(2).sum(),
+    "cumsum": lambda sdf: sdf.x.cumsum(),
+    "expanding-sum": lambda sdf: sdf.expanding().x.sum(),
+}
+
+
+def dataframe_fault_sample(ctx, n):
+    """The same clauses one layer up: the 'user function' of an accumulate node is one of streamz's own dataframe
+    accumulators.  A frame that makes it raise (a missing column) must be reported by emit, and the frames that follow
+    must give what a fresh pipeline gives for the good frames only (real code as its own reference)."""
+    import pandas as pd
+    from streamz import Stream
+    from streamz.dataframe import DataFrame
+    rng = ctx.rng
+
+    def canon(r):
+        return r.to_json() if isinstance(r, (pd.DataFrame, pd.Series)) else repr(r)
+
+    def run_df(name, frames):
+        src = Stream()
+        sdf = DataFrame(src, example=pd.DataFrame({"x": [1.0], "g": [0]}))
+        out, errs = [], []
+        DF_BUILDERS[name](sdf).stream.sink(out.append)
+        for f in frames:
+            try:
+                src.emit(f)
+                errs.append(None)
+            except Exception as e:  # noqa: BLE001
+                errs.append(type(e).__name__)
+        return [canon(r) for r in out], errs
+
+    names = sorted(DF_BUILDERS)
+    for i in range(n):
+        name = names[i % len(names)]
+        sizes = [rng.choice([1, 1, 2, 3]) for _ in range(rng.randint(3, 6))]
+        v = 0
+        good = []
+        for sz in sizes:
+            good.append(pd.DataFrame({"x": [float(v + j + 1) for j in range(sz)], "g": [rng.choice([0, 1, 2]) for _ in range(sz)]}))
+            v += sz
+        k = rng.randint(1, len(good) - 1)
+        bad = pd.DataFrame({"y": [9.0], "g": [rng.choice([0, 1])]}) if rng.random() < 0.7 else pd.DataFrame({"x": [9.0], "h": [1]})
+        case = {"dataframe": True, "agg": name, "sizes": sizes, "bad_at": k, "bad_cols": list(bad.columns)}
+        ctx.case(case, nontrivial=True)
+        ctx.count("dataframe:" + name)
+        got, errs = run_df(name, good[:k] + [bad] + good[k:])
+        ref, rerrs = run_df(name, good)
+        if any(rerrs):
+            continue
+        if errs[k] is None:
+            # the frame happened to be acceptable to this aggregation (e.g. it does not use the missing column)
+            continue
+        if any(e for j, e in enumerate(errs) if j != k):
+            ctx.failure("state-after-failure:dataframe:" + name, "%s: after a frame that raised %s, later valid frames raise %r"
+                        % (name, errs[k], [e for j, e in enumerate(errs) if j != k and e]), case)
+        elif got != ref:
+            ctx.failure("state-after-failure:dataframe:" + name, "%s: after a frame that raised %s the results for the later valid frames differ "
+                        "from those of a pipeline that never saw the failing frame" % (name, errs[k]), case)
+
+
 def flush(ctx, batch):
     """Model comparison + oracles for a chunk of cases (chunked to keep memory bounded in the thorough tier)."""
     from .. import common
@@ -194,6 +263,7 @@ def run(ctx):
     from .. import common, gen_graph
     ctx.audit()
     threaded_sample(ctx, 12 if not ctx.thorough() else 60)
+    dataframe_fault_sample(ctx, 44 if not ctx.thorough() else 660)
     rng = ctx.rng
     n = 300 if not ctx.thorough() else 10000
     batch = []
@@ -233,6 +303,10 @@ def replay(ctx, data):
     if case.get("threaded"):
         threaded_sample(ctx, 12)
         ctx.coverage["rule"] = "replay: threaded sample"
+        return
+    if case.get("dataframe"):
+        dataframe_fault_sample(ctx, 44)
+        ctx.coverage["rule"] = "replay: dataframe fault sample"
         return
     obs = graphcheck.rerun(case, flavour=case.get("flavour", "future"))
     evaluate(ctx, case, obs, common.lean_driver("Graph", graphcheck.model_lines(case)))
